@@ -58,7 +58,7 @@ def typeref_unit(kf):
     # nested fn hoisted (E1): the recursive worker
     u.extract_fn(F, ['impl TypeRef', 'fn is_subtype', 'fn is_subtype'], name='is_subtype_rec',
                  label=F + '::impl TypeRef::fn is_subtype::fn is_subtype (nested)',
-                 rewrites=[Sub('is_subtype(', 'is_subtype_rec(', count=3, rule='R-hoist')],
+                 rewrites=[Sub('is_subtype(', 'is_subtype_rec(', count='+', rule='R-hoist')],
                  head_proof='proof { string_eq_axiom(); }',
                  ensures=['r == valid_impl_type(*sub, *cur)'], decreases='*cur, *sub')
     u.extract_fn(F, ['impl TypeRef', 'fn is_subtype'], wrap_impl='TypeRef',
@@ -79,3 +79,4 @@ def typeref_unit(kf):
 
 
 UNITS = {'c33_typeref': (['C33'], typeref_unit)}
+SEARCH = {'c33_typeref': ['c33_subtype']}
